@@ -81,22 +81,28 @@ fn c05_is_quiesced() {
 }
 
 // ---------------------------------------------------------------------------------------------
-// A value type with a destructor: a token that records its own drop (per id), so that a
-// duplicated, lost (leaked by push) or fabricated value is visible as a drop count != 1.
-pub static mut DROPS: [u8; 256] = [0; 256];
+// A value type with a destructor: a token that records its own drop (bit `id % 64` of SEEN; a second
+// drop of the same id sets DUP), so that a duplicated, lost (leaked by push) or fabricated value is visible.
+pub static mut SEEN: u64 = 0;
+pub static mut DUP: bool = false;
 pub static mut DROP_TOTAL: u32 = 0;
 pub struct Tok(pub u8);
 impl Drop for Tok {
     fn drop(&mut self) {
         unsafe {
-            DROPS[self.0 as usize] = DROPS[self.0 as usize].wrapping_add(1);
+            let b = 1u64 << (self.0 & 63);
+            if SEEN & b != 0 {
+                DUP = true;
+            }
+            SEEN |= b;
             DROP_TOTAL += 1;
         }
     }
 }
 fn reset_drops() {
     unsafe {
-        DROPS = [0; 256];
+        SEEN = 0;
+        DUP = false;
         DROP_TOTAL = 0;
     }
 }
@@ -126,7 +132,6 @@ fn make_quiescent(block: &Block<Tok>, k: usize, base: u8) {
 // in push order" for every sequential push sequence on one block.
 pub fn c05_push_step_body(k: usize, base: u8, value: u8, j: usize) {
     kani::assume(k <= BLOCK_SIZE);
-    kani::assume(base <= 100 && value >= 200); // token ids of old and new values are distinct
     reset_drops();
     let block: Block<Tok> = Block::new();
     make_quiescent(&block, k, base);
@@ -211,15 +216,36 @@ fn c05_data_push_order() {
 // ---------------------------------------------------------------------------------------------
 // Drop for Block<T>: from quiescent(k), ANY k in 0..=64: exactly the k written slots are dropped,
 // each exactly once, and no slot at or above k is touched (never-written slots hold no value).
-pub fn c05_drop_body(k: usize, j: u8) {
-    kani::assume(k <= BLOCK_SIZE);
+fn drop_from_quiescent(k: usize, j: u8) {
     reset_drops();
     let block: Block<Tok> = Block::new();
-    make_quiescent(&block, k, 0);
+    make_quiescent(&block, k, 0); // token ids are the slot indices
     drop(block);
     assert!(unsafe { DROP_TOTAL } as usize == k);
-    // token ids are the slot indices: slot j dropped once iff j < k
-    assert!(unsafe { DROPS[j as usize] } == if (j as usize) < k { 1 } else { 0 });
+    assert!(!unsafe { DUP }); // nothing dropped twice
+    assert!(unsafe { SEEN } == mask(k) as u64); // slot j dropped iff j < k
+    if j < 64 {
+        assert!((unsafe { SEEN } >> j) & 1 == if (j as usize) < k { 1 } else { 0 });
+    }
+}
+fn drop_cases(k: usize, j: u8, small_only: bool) {
+    // case split on k so that each quiescent state is explored with a concrete block (otherwise CBMC
+    // unwinds the drop loop once per unwinding of the spin loop `while !self.is_quiesced() {}`: 66 x 65)
+    let mut kk = 0usize;
+    let mut ran = 0u32;
+    while kk <= BLOCK_SIZE {
+        if kk == k && (!small_only || kk <= 6 || kk >= BLOCK_SIZE - 1) {
+            drop_from_quiescent(kk, j);
+            ran += 1;
+        }
+        kk += 1;
+    }
+    assert!(ran == 1);
+}
+// all 65 quiescent states (thorough tier: ~7 min of symbolic execution)
+pub fn c05_drop_body(k: usize, j: u8) {
+    kani::assume(k <= BLOCK_SIZE);
+    drop_cases(k, j, false);
     kani::cover!(k == BLOCK_SIZE);
     kani::cover!(k == 0);
     kani::cover!(k == 7 && j == 6);
@@ -230,28 +256,41 @@ pub fn c05_drop_body(k: usize, j: u8) {
 fn c05_drop() {
     c05_drop_body(kani::any(), kani::any());
 }
+// quick stand-in: k in {0..=6, 63, 64}
+pub fn c05_drop_small_body(k: usize, j: u8) {
+    kani::assume(k <= 6 || k == BLOCK_SIZE - 1 || k == BLOCK_SIZE);
+    drop_cases(k, j, true);
+    kani::cover!(k == BLOCK_SIZE);
+    kani::cover!(k == 0);
+    kani::cover!(k == 6 && j == 5);
+}
+#[cfg(kani)]
+#[kani::proof]
+#[kani::unwind(66)]
+fn c05_drop_small() {
+    c05_drop_small_body(kani::any(), kani::any());
+}
 
 // bounded(n <= 3): the values pushed through the real push are the ones dropped by Drop, once each;
 // a value rejected by a full block is not dropped by the block.
 pub fn c05_push_then_drop_body(n: u8, a: u8, b: u8, c: u8) {
     kani::assume(n <= 3);
+    kani::assume(a < 64 && b < 64 && c < 64);
     kani::assume(a != b && b != c && a != c);
     reset_drops();
     let vals = [a, b, c];
     let block: Block<Tok> = Block::new();
+    let mut expect = 0u64;
     let mut i = 0usize;
     while i < n as usize {
         assert!(block.push(Tok(vals[i])).is_ok());
+        expect |= 1u64 << vals[i];
         i += 1;
     }
     assert!(unsafe { DROP_TOTAL } == 0);
     drop(block);
     assert!(unsafe { DROP_TOTAL } == n as u32);
-    let mut i = 0usize;
-    while i < 3 {
-        assert!(unsafe { DROPS[vals[i] as usize] } == if i < n as usize { 1 } else { 0 });
-        i += 1;
-    }
+    assert!(unsafe { SEEN } == expect && !unsafe { DUP });
     kani::cover!(n == 3);
     kani::cover!(n == 1);
 }
